@@ -5,11 +5,19 @@
 ;;        <res> = M<spans>;S<spans>   spans = #f -> "-"   else  i-j,x,i-j,...   (x = submatch unset)
 ;;        a Scheme error while matching one string gives  M!<msg>  /  S!<msg>
 ;;   or   id ERR <message>        when (regexp sre) raises
+;; also:  (id anchors str ...) -> id A <bits per position>   the internal predicates match/bos .. match/nwb at every position
+;; also:  (id reps (from to) ...) -> id X <shape of (sre-expand-reps from to '(seq ($ x)))>
 ;; also:  (id range sre (str start end) ...) -> like R, calling (regexp-matches rx str start end) / (regexp-search rx str start end)
 ;; also:  (id fold sre str ...) -> id G F<spans kons saw>;E<regexp-extract>;S<regexp-split>;P<regexp-partition>;R<regexp-replace with "-">
 ;; also:  (id chars cp ...)  ->  id K cp:fold:up:down:word ...   (char-level functions, hex)
 (import (scheme base) (scheme write) (scheme read) (scheme char) (scheme file)
-        (scheme process-context) (chibi regexp) (chibi char-set) (chibi char-set full))
+        (scheme process-context) (scheme eval) (only (meta) find-module module-env)
+        (chibi regexp) (chibi char-set) (chibi char-set full) (chibi string))
+
+;; non-exported procedures of (chibi regexp), for the function-level stages; #f when the name is gone
+(define regexp-env (module-env (find-module '(chibi regexp))))
+(define (internal name)
+  (guard (e (#t #f)) (eval name regexp-env)))
 
 (define (msg-of e)
   (let ((o (open-output-string)))
@@ -96,6 +104,59 @@
            (write-string (hex (char->integer (char-downcase ch)))) (write-string ":")
            (write-string (if (char-set-contains? char-set:word ch) "1" "0"))))
        (cddr c)))
+     ((eq? (cadr c) 'anchors)
+      ;; (id anchors str ...) -> id A <res> ...   res = for every position 0..len the 7 results of
+      ;; match/bos eos bol eol bow eow nwb as 0/1, positions separated by ","
+      (let ((preds (map internal '(match/bos match/eos match/bol match/eol match/bow match/eow match/nwb))))
+        (cond
+         ((memv #f preds)
+          (write-string " ERR internal-anchor-predicates-not-found"))
+         (else
+          (write-string " A")
+          (for-each
+           (lambda (s)
+             (write-string " ")
+             (let ((start (string-cursor-start s)) (end (string-cursor-end s)) (len (string-length s)))
+               (let lp ((i 0))
+                 (if (<= i len)
+                     (let* ((sc (string-index->cursor s i))
+                            (ch (and (< i len) (string-cursor-ref s sc))))
+                       (if (> i 0) (write-string ","))
+                       (for-each
+                        (lambda (p)
+                          (write-string (guard (e (#t "!")) (if (p s sc ch start end #f) "1" "0"))))
+                        preds)
+                       (lp (+ i 1)))))))
+           (cddr c))))))
+     ((eq? (cadr c) 'reps)
+      ;; (id reps (from to) ...) -> id X <shape> ...   to = #f for "at least"; the internal sre-expand-reps applied to
+      ;; the body (seq ($ x)); shape: c = stripped copy, C = copy with its submatch, o/O = optional copy, S = star, ? = other
+      (let ((expand (internal 'sre-expand-reps)))
+        (cond
+         ((not expand)
+          (write-string " ERR internal-sre-expand-reps-not-found"))
+         (else
+          (write-string " X")
+          (for-each
+           (lambda (ft)
+             (write-string " ")
+             (write-string
+              (guard (e (#t (string-append "!" (msg-of e))))
+                (let ((res (expand (car ft) (cadr ft) '(seq ($ x)))))
+                  (if (not (and (pair? res) (memq (car res) '(: seq))))
+                      "?"
+                      (if (null? (cdr res))
+                          "_"
+                          (list->string
+                           (map (lambda (it)
+                                  (cond ((equal? it '(seq (: x))) #\c)
+                                        ((equal? it '(seq ($ x))) #\C)
+                                        ((equal? it '(? (seq (: x)))) #\o)
+                                        ((equal? it '(? (seq ($ x)))) #\O)
+                                        ((equal? it '(* (seq ($ x)))) #\S)
+                                        (else #\?)))
+                                (cdr res)))))))))
+           (cddr c))))))
      ((eq? (cadr c) 'range)
       ;; (id range sre (str start end) ...) -> id R M<spans>;S<spans> ...   with the optional start/end arguments
       (let ((rx (guard (e (#t (cons 'err (msg-of e)))) (regexp (car (cddr c))))))
